@@ -489,38 +489,67 @@ Lemma reserved_X0 P S :
   concat (mapi (fun k t => if has_rb X0 t then reserved_viol P (xbreaks X0 t) k (xstrip X0 t) else []) (sl_tours S)) = [].
 Proof. exact (concat_mapi_nil (sl_tours S)). Qed.
 
-Theorem accounted4_X0 P S : accounted4 X0 P S = accounted_b P S ++ mixed_viols P S.
-Proof. unfold accounted4. rewrite strip_sol_X0, rbreak_viols_X0. reflexivity. Qed.
+(* a document without clustered stops *)
+Lemma nth_z_nil {A} (i : Z) (d : A) : nth_z [] i d = d.
+Proof. unfold nth_z. destruct (Z.to_nat i); reflexivity. Qed.
+Lemma xt_of_XS0 k : xt_of XS0 k = xt0.
+Proof. unfold xt_of, XS0. cbn [xs_tours]. apply nth_z_nil. Qed.
+Lemma is_cluster_tour_XS0 k : is_cluster_tour (xt_of XS0 k) = false.
+Proof. rewrite xt_of_XS0. reflexivity. Qed.
+Lemma member_viol_xt0 P X k t : member_viol P X xt0 k t = [].
+Proof.
+  unfold member_viol. apply flat_map_nil_iff. intros it Hit. unfold items_of, mapi in Hit.
+  assert (H : forall l n, In it (mapi_from n (fun i a => (i, (a, nth_z (xt_commute xt0) i None))) l) -> snd (snd it) = None).
+  { induction l as [|a r IH]; intros n Hin; cbn [mapi_from] in Hin; [contradiction|].
+    destruct Hin as [<-|Hin]; [cbn [snd xt_commute xt0]; apply nth_z_nil|exact (IH _ Hin)]. }
+  rewrite (H _ _ Hit). reflexivity.
+Qed.
+Lemma member_viols_XS0 P X S : member_viols P X XS0 S = [].
+Proof.
+  unfold member_viols. rewrite (mapi_ext _ (fun (_ : Z) (_ : stour) => @nil violation)); [apply concat_mapi_nil|].
+  intros k t. rewrite xt_of_XS0. apply member_viol_xt0.
+Qed.
 
-Theorem feasible4_X0 P S : feasible4 X0 P S = feasible_viols P S ++ xfeasible_viols P S.
+Theorem accounted4_X0 P S : accounted4 X0 XS0 P S = accounted_b P S ++ mixed_viols P S.
+Proof. unfold accounted4. rewrite strip_sol_X0, rbreak_viols_X0, member_viols_XS0, app_nil_r. reflexivity. Qed.
+
+Theorem feasible4_X0 P S : feasible4 X0 XS0 P S = feasible_viols P S ++ xfeasible_viols P S.
 Proof.
   unfold feasible4. rewrite rb_missing_viols_X0, reserved_X0.
   unfold feasible_viols, xfeasible_viols, dims_feasible_viols, order_viols. cbv zeta.
   rewrite strip_sol_X0.
-  rewrite (mapi_ext (fun k t => feasible_viol_rb P (xbreaks X0 t) k (xstrip X0 t)) (feasible_viol P)); [|intros k t; apply feasible_viol_rb_nil].
-  rewrite (mapi_ext (fun k t => flat_map (fun d => fst (dim_tour_viol_rb P (xbreaks X0 t) k (xstrip X0 t) d)) (seq 0 (xdims P)))
+  rewrite (mapi_ext (fun k t => if is_cluster_tour (xt_of XS0 k) then feasible_viol_cl P X0 (xt_of XS0 k) k t
+                                else feasible_viol_rb P (xbreaks X0 t) k (xstrip X0 t)) (feasible_viol P));
+    [|intros k t; rewrite is_cluster_tour_XS0; apply feasible_viol_rb_nil].
+  rewrite (mapi_ext (fun k t => flat_map (fun d => fst (if is_cluster_tour (xt_of XS0 k) then dim_viol_cl P k t d
+                                                        else dim_tour_viol_rb P (xbreaks X0 t) k (xstrip X0 t) d)) (seq 0 (xdims P)))
                     (fun k t => flat_map (fun d => fst (dim_tour_viol P k t d)) (seq 0 (xdims P))));
-    [|intros k t; apply flat_map_ext; intros d; apply (f_equal fst); apply dim_tour_viol_rb_nil].
-  rewrite (mapi_ext (fun k t => order_viol_rb P (xbreaks X0 t) k (xstrip X0 t)) (order_viol P)); [|intros k t; apply order_viol_rb_nil].
+    [|intros k t; apply flat_map_ext; intros d; rewrite is_cluster_tour_XS0; apply (f_equal fst); apply dim_tour_viol_rb_nil].
+  rewrite (mapi_ext (fun k t => if is_cluster_tour (xt_of XS0 k) then order_viol_cl P k t
+                                else order_viol_rb P (xbreaks X0 t) k (xstrip X0 t)) (order_viol P));
+    [|intros k t; rewrite is_cluster_tour_XS0; apply order_viol_rb_nil].
   rewrite !app_nil_r. reflexivity.
 Qed.
 
-Theorem replay4_X0 P S : replay4 X0 P S = replay_viol P S ++ xreplay_viols P S.
+Theorem replay4_X0 P S : replay4 X0 XS0 P S = replay_viol P S ++ xreplay_viols P S.
 Proof.
   unfold replay4, replay_viol, xreplay_viols, dims_replay_viols.
-  rewrite (mapi_ext (fun k t => replay_tour_rb P (xbreaks X0 t) (xbends X0 t) k (xstrip X0 t)) (replay_tour P)); [|intros k t; apply replay_tour_rb_nil].
-  rewrite (mapi_ext (fun k t => flat_map (fun d => snd (dim_tour_viol_rb P (xbreaks X0 t) k (xstrip X0 t) d)) (seq 0 (xdims P)))
+  rewrite (mapi_ext (fun k t => if is_cluster_tour (xt_of XS0 k) then replay_tour_cl P X0 (xt_of XS0 k) k t
+                                else replay_tour_rb P (xbreaks X0 t) (xbends X0 t) k (xstrip X0 t)) (replay_tour P));
+    [|intros k t; rewrite is_cluster_tour_XS0; apply replay_tour_rb_nil].
+  rewrite (mapi_ext (fun k t => flat_map (fun d => snd (if is_cluster_tour (xt_of XS0 k) then dim_viol_cl P k t d
+                                                        else dim_tour_viol_rb P (xbreaks X0 t) k (xstrip X0 t) d)) (seq 0 (xdims P)))
                     (fun k t => flat_map (fun d => snd (dim_tour_viol P k t d)) (seq 0 (xdims P))));
-    [|intros k t; apply flat_map_ext; intros d; apply (f_equal snd); apply dim_tour_viol_rb_nil].
-  rewrite app_assoc. reflexivity.
+    [|intros k t; apply flat_map_ext; intros d; rewrite is_cluster_tour_XS0; apply (f_equal snd); apply dim_tour_viol_rb_nil].
+  change (xtotal_checks XS0) with (@nil violation). rewrite app_nil_r, app_assoc. reflexivity.
 Qed.
 
-Theorem valid4_X0 P S : valid4 X0 P S = precond_viol P ++ accounted_b P S ++ mixed_viols P S ++ feasible_viols P S ++ xfeasible_viols P S
+Theorem valid4_X0 P S : valid4 X0 XS0 P S = precond_viol P ++ accounted_b P S ++ mixed_viols P S ++ feasible_viols P S ++ xfeasible_viols P S
                                           ++ replay_viol P S ++ xreplay_viols P S.
 Proof. unfold valid4. rewrite accounted4_X0, feasible4_X0, replay4_X0, <- !app_assoc. reflexivity. Qed.
 (* ---- non-vacuity: ex_P of ValidP.v, whose only shift now defines one required break *)
 (* (a) at the exact time 12, 4 s: it interrupts the service of job 1 (10 .. 19 instead of 10 .. 15), back at the depot at 29 *)
-Definition ex_Xq : xproblem := mkXProblem [(1, 0%nat, [mkRBreak 12 12 4 false])].
+Definition ex_Xq : xproblem := mkXProblem [(1, 0%nat, [mkRBreak 12 12 4 false])] None.
 Definition ex_stat_q : sstat := mkSStat 85 20 29 20 5 0 4.
 Definition ex_Sq : ssolution :=
   mkSSolution ex_stat_q
@@ -529,7 +558,7 @@ Definition ex_Sq : ssolution :=
                     mkSStop 0 29 29 0 20 [mkSAct (-1) 11 None None None]] ex_stat_q []]
     [(2, 1%nat)].
 (* (b) offset interval [4, 4] after the departure, 3 s: taken while driving to job 1 - a stop without location *)
-Definition ex_Xt : xproblem := mkXProblem [(1, 0%nat, [mkRBreak 4 4 3 true])].
+Definition ex_Xt : xproblem := mkXProblem [(1, 0%nat, [mkRBreak 4 4 3 true])] None.
 Definition ex_stat_t : sstat := mkSStat 83 20 28 20 5 0 3.
 Definition ex_St : ssolution :=
   mkSSolution ex_stat_t
@@ -550,10 +579,10 @@ Definition ex_St_bad : ssolution :=
     [(2, 1%nat)].
 
 Lemma ex_required_break :
-  valid4 ex_Xq ex_P ex_Sq = [] /\ valid4 ex_Xt ex_P ex_St = []
-  /\ In (FReservedTime 0 1) (feasible4 ex_Xt ex_P ex_St_bad)
-  /\ feasible4 ex_Xq ex_P ex_S = [FRequiredBreakMissing 0]
-  /\ accounted4 ex_Xt ex_P ex_Sq = [ARequiredBreak 0].
+  valid4 ex_Xq XS0 ex_P ex_Sq = [] /\ valid4 ex_Xt XS0 ex_P ex_St = []
+  /\ In (FReservedTime 0 1) (feasible4 ex_Xt XS0 ex_P ex_St_bad)
+  /\ feasible4 ex_Xq XS0 ex_P ex_S = [FRequiredBreakMissing 0]
+  /\ accounted4 ex_Xt XS0 ex_P ex_Sq = [ARequiredBreak 0].
 Proof.
   split; [vm_compute; reflexivity|]. split; [vm_compute; reflexivity|].
   split; [vm_compute; repeat (first [left; reflexivity | right])|]. split; vm_compute; reflexivity.
@@ -575,7 +604,7 @@ Definition ex_St_twice : ssolution :=
                     mkSStop 1 13 18 0 10 [mkSAct BREAK_JOB 12 None (Some (4, 7)) None; mkSAct 1 1 (Some 1) (Some (13, 18)) None];
                     mkSStop 0 28 28 0 20 [mkSAct (-1) 11 None None None]] ex_stat_t []]
     [(2, 1%nat)].
-Lemma ex_required_break_twice : accounted4 ex_Xt ex_P ex_St_twice = [ARequiredBreak 0].
+Lemma ex_required_break_twice : accounted4 ex_Xt XS0 ex_P ex_St_twice = [ARequiredBreak 0].
 Proof. vm_compute. reflexivity. Qed.
 
 (* finding C03-F4: job 1 may be served from 30 on; the vehicle arrives at 10 and waits; a required break at exactly 15, 5 s, is
@@ -583,7 +612,7 @@ Proof. vm_compute. reflexivity. Qed.
 Definition ex_Pw : pproblem :=
   mkPProblem [mkPJob 1 [mkPTask 1 [mkPPlace 1 5 [(30, 100)] None] 1] true [] [] [] None None [] []]
              (pr_fleet ex_P) 3 (pr_dur ex_P) (pr_dist ex_P) [].
-Definition ex_Xw : xproblem := mkXProblem [(1, 0%nat, [mkRBreak 15 15 5 false])].
+Definition ex_Xw : xproblem := mkXProblem [(1, 0%nat, [mkRBreak 15 15 5 false])] None.
 Definition ex_tour_w (st : sstat) : stour :=
   mkSTour 1 1 0 [mkSStop 0 0 0 1 0 [mkSAct (-1) 10 None None None];
                  mkSStop 1 10 35 0 10 [mkSAct BREAK_JOB 12 None (Some (15, 20)) None; mkSAct 1 1 (Some 1) (Some (30, 35)) None];
@@ -592,6 +621,6 @@ Definition ex_Sw : ssolution := mkSSolution (mkSStat 117 20 45 20 5 15 5) [ex_to
 (* what the writer reports: waiting = arrival-to-start (20, the break's 5 s once more), cost with those 5 s charged twice *)
 Definition ex_Sw_twice : ssolution := mkSSolution (mkSStat 127 20 45 20 5 20 5) [ex_tour_w (mkSStat 127 20 45 20 5 20 5)] [].
 Lemma ex_required_break_waiting :
-  valid4 ex_Xw ex_Pw ex_Sw = [] /\ valid4 ex_Xw ex_Pw ex_Sw_twice = [RStatWaiting 0; RStatCost 0]
+  valid4 ex_Xw XS0 ex_Pw ex_Sw = [] /\ valid4 ex_Xw XS0 ex_Pw ex_Sw_twice = [RStatWaiting 0; RStatCost 0]
   /\ 20 + 5 + 20 + 5 <> 45.
 Proof. split; [vm_compute; reflexivity|]. split; [vm_compute; reflexivity|discriminate]. Qed.
